@@ -93,3 +93,27 @@ package scorch
 //@   loop 0: invariant held(s.rootLock) && rheld(s.rootLock) == 0 && protectedSnapshots != nil && (cap(epochsToRemove) == 0 || fresh(epochsToRemove)) && (cap(newEligible) == 0 || fresh(newEligible)) && (cap(epochsToRemove) == 0 || cap(newEligible) == 0 || base(epochsToRemove) != base(newEligible)) && openTx == old(openTx)
 //@   loop 0: invariant forall(k, 0, len(epochsToRemove), !in(protectedSnapshots, epochsToRemove[k])) && forall(k, 0, len(newEligible), in(protectedSnapshots, newEligible[k]))
 //@   loop 1: invariant !held(s.rootLock) && rheld(s.rootLock) == 0 && tx != nil && tx.Tx != nil && tx.Tx.open && snapshots != nil && openTx == old(openTx) + 1 && forall(k, 0, len(epochsToRemove), !in(protectedSnapshots, epochsToRemove[k])) && 0 <= numRemoved && numRemoved <= iter
+
+// Closing an online-copy reader: the "copy scheduled" protection of a segment file is dropped only
+// when no scheduled copy of it remains (count at or below zero after this reader's decrement), under
+// the root lock, which is released.
+//@ func zapFileName
+//@   props C12
+//@   mode int
+//@   trusted fmt.Sprintf of the segment id
+//@   ensures isBaseName(result)
+//@ func IndexSnapshot.Close
+//@   props C12
+//@   mode int
+//@   trusted reference counting is not under contract
+//@   requires is != nil
+//@ func IndexSnapshot.CloseCopyReader
+//@   props C12
+//@   mode int
+//@   locks
+//@   requires is != nil && is.parent != nil && is.parent.copyScheduled != nil && !held(is.parent.rootLock) && rheld(is.parent.rootLock) == 0 && forall(k, 0, len(is.segment), is.segment[k] != nil)
+//@   requires all(n, string, implies(in(is.parent.copyScheduled, n), is.parent.copyScheduled[n] > -1073741824))
+//@   modifies lock(is.parent.rootLock), map(is.parent.copyScheduled)
+//@   at call delete#0: assert is.parent.copyScheduled[fileName] <= 0 && held(is.parent.rootLock) && isBaseName(fileName)
+//@   ensures !held(is.parent.rootLock) && rheld(is.parent.rootLock) == 0
+//@   loop 0: invariant held(is.parent.rootLock) && rheld(is.parent.rootLock) == 0 && is.parent.copyScheduled != nil && forall(k, 0, len(is.segment), is.segment[k] != nil) && all(n, string, implies(in(is.parent.copyScheduled, n), is.parent.copyScheduled[n] > -1073741824 - iter))
